@@ -39,6 +39,18 @@ VARIANTS = [(False, False), (False, True), (True, False), (True, True)]      # (
 
 _setup_done = False
 
+# The framework's extraction cross-check hands sampled cases to coqc as string literals; a code base
+# with a 12 000-line file encodes to > 30 000 characters, which overflows coqc's default 8 MB stack
+# (measured: "Error: Stack overflow" at ~30 k characters, fine at 90 k with an unlimited stack).
+# Child processes inherit the limit, so raise the soft limit to the hard one here.
+try:
+    import resource as _resource
+    _soft, _hard = _resource.getrlimit(_resource.RLIMIT_STACK)
+    if _soft != _hard:
+        _resource.setrlimit(_resource.RLIMIT_STACK, (_hard, _hard))
+except Exception:  # noqa
+    pass
+
 
 def _setup():
     global _setup_done
